@@ -79,6 +79,16 @@ fn writers() -> Result<Vec<W>, String> {
       let (bai, csi_ix, tbx) = (Rc::new(bi.build(3)), Rc::new(ci.build(3)), Rc::new(ti.build(3)));
       v.push(("bai::io::Writer", Box::new(move |s| { let mut w = noodles_bam::bai::io::Writer::new(s); (vec![w.write_index(&bai)], Box::new(w) as Box<dyn std::any::Any>) }), None));
       v.push(("csi::io::Writer", Box::new(move |s| { let mut w = csi::io::Writer::new(s); let a = w.write_index(&csi_ix); let b = w.into_inner().finish().map(|_| ()); (vec![a, b], Box::new(()) as Box<dyn std::any::Any>) }), None));
+      // a CSI index whose header holds ~80 kB of reference sequence names: the aux section alone is larger than one BGZF block, so it must be written
+      // with write_all semantics into the (partially accepting) BGZF writer; the file must DECODE to the same names
+      { let names: Vec<bstr::BString> = (0..5000).map(|i| bstr::BString::from(format!("contig_{i:08}"))).collect();
+        let mut big = Indexer::<BinnedIndex>::new(14, 5).set_header(csi::binning_index::index::header::Builder::vcf().set_reference_sequence_names(names.iter().cloned().collect()).build());
+        big.add_record(Some((0, p(1), p(100), true)), Chunk::new(vp(100, 0), vp(140, 7))).map_err(|e| e.to_string())?;
+        let big = Rc::new(big.build(5000)); let n_names = names.len();
+        v.push(("csi::io::Writer (80 kB header)", Box::new(move |s| { let mut w = csi::io::Writer::new(s); let a = w.write_index(&big); let b = w.into_inner().finish().map(|_| ()); (vec![a, b], Box::new(()) as Box<dyn std::any::Any>) }),
+            Some(Box::new(move |b: &[u8]| { use csi::binning_index::BinningIndex as _; let ix = csi::io::Reader::new(b).read_index().map_err(|e| format!("csi read_index: {e}"))?; let h = ix.header().ok_or("no header")?;
+                if h.reference_sequence_names().len() != n_names { return Err(format!("{} reference sequence names instead of {n_names}", h.reference_sequence_names().len())); }
+                Ok(vec![format!("{} names, last {:?}, {} reference sequences", h.reference_sequence_names().len(), h.reference_sequence_names().last(), ix.reference_sequences().len())]) })))); }
       v.push(("tabix::io::Writer", Box::new(move |s| { let mut w = noodles_tabix::io::Writer::new(s); let a = w.write_index(&tbx); let b = w.try_finish(); (vec![a, b], Box::new(w) as Box<dyn std::any::Any>) }), None)); }
     v.push(("gzi::io::Writer", Box::new(|s| { let mut w = bgzf::gzi::io::Writer::new(s); (vec![w.write_index(&bgzf::gzi::Index::from((1..200u64).map(|i| (i * 1000, i * 65280)).collect::<Vec<_>>()))], Box::new(w) as Box<dyn std::any::Any>) }), None));
     Ok(v)
@@ -106,7 +116,7 @@ pub fn writer_sinks(tier: &str) -> Result<String, String> {
         // what is written only when the writer is dropped cannot report a failure
         if after_drop > reference.len() + 28 { fails.insert(format!("{name} deferred"), format!("writer sinks [{name}]: every call, finish included, returned Ok while {} of {} bytes were still unwritten — they reach the sink only when the writer is dropped, where a failure is ignored", after_drop - reference.len(), after_drop)); continue; }
         let canon = |b: &[u8]| -> Result<Vec<String>, String> { match decode { Some(d) => d(b), None => Ok(vec![format!("{} bytes", b.len()), b.iter().fold(0xcbf29ce484222325u64, |h, x| (h ^ *x as u64).wrapping_mul(0x100000001b3)).to_string()]) } };
-        let want = canon(&reference).map_err(|e| format!("{name}: the reference output does not decode: {e}"))?;
+        let want = match canon(&reference) { Ok(w) => w, Err(e) => { fails.insert(format!("{name} decode"), format!("writer sinks [{name}]: every call returns Ok on a plain sink but the {} bytes it holds do not decode to what was written: {e}", reference.len())); continue; } };
         // (a) short writes and spurious Interrupted
         for mode in [Mode::Short(1), Mode::Short(7), Mode::Short(64), Mode::Short(4093), Mode::Interrupt(1, usize::MAX), Mode::Interrupt(2, 5), Mode::Interrupt(3, 64)] {
             cases += 1;
